@@ -15,7 +15,9 @@ EXPLICIT = ('ValueError', 'RuntimeError')
 
 def strategy(tier):
     return st.fixed_dictionaries({
-        'spec': specs.full_spec(max_nodes=9 if tier == 'quick' else 12),
+        'spec': st.one_of(specs.full_spec(max_nodes=9 if tier == 'quick' else 12),
+                          specs.full_spec(max_nodes=9 if tier == 'quick' else 12),
+                          specs.full_spec(max_nodes=9 if tier == 'quick' else 12), specs.two_conn_spec()),
         'enc': st.sampled_from(['COMPLETE', 'FAST']),
         'vseed': st.integers(0, 2**32),
     })
